@@ -174,11 +174,41 @@ class Fixture(object):
         self.sched.abort()
 
 
+class BacklogPolicy(object):
+    """the writer is held inside its transport write while the other thread queues a long backlog; then a re-entrant send is
+    started on the writer (a finalizer running during transmission); then everybody runs"""
+
+    def __init__(self):
+        self.phase = 0
+
+    def choose(self, s, ch):
+        by = {c[0].name: c for c in ch}
+        if self.phase == 0:
+            t1 = by.get("t1")
+            if t1 is not None and t1[0].pending.kind != "write":
+                return t1
+            self.phase = 1
+        if self.phase == 1:
+            if "t2" in by:
+                return by["t2"]
+            self.phase = 2
+        return ch[0]
+
+    def inject_here(self, s, t):
+        if self.phase == 2 and t.name == "t1" and t.pending.kind == "write":
+            self.phase = 3
+            return True
+        return False
+
+
 CONFIGS = {
     "small": dict(msgs={"t1": ["a1"], "t2": ["b1"]}, parts={"a1": 1, "b1": 1, "r1": 1}, repool=["r1"]),
     "mc": dict(msgs={"t1": ["a1", "a2"], "t2": ["b1", "b2"]}, parts={"a1": 1, "a2": 3, "b1": 1, "b2": 1, "r1": 1},
                repool=["r1"]),
     "mid": dict(msgs={"t1": ["a1", "a2"], "t2": ["b1"]}, parts={"a1": 1, "a2": 3, "b1": 1, "r1": 1}, repool=["r1"]),
+    # far beyond the 1-3 messages of the statement's quantifier: one directed schedule only
+    "backlog": dict(msgs={"t1": ["a1"], "t2": ["b%d" % i for i in range(1, 101)]},
+                    parts=dict([("a1", 1), ("r1", 1)] + [("b%d" % i, 1) for i in range(1, 101)]), repool=["r1"]),
     "three": dict(msgs={"t1": ["a1", "a2"], "t2": ["b1", "b2"], "t3": ["c1"]},
                   parts={"a1": 1, "a2": 1, "b1": 1, "b2": 1, "c1": 1}, repool=[]),
     "three_re": dict(msgs={"t1": ["a1", "a2", "a3"], "t2": ["b1", "b2"], "t3": ["c1", "c2"]},
@@ -346,7 +376,10 @@ def run_impl(cfgname, policy, lines=False, inject_rng=None, inject_plan=None, ma
             t, wake = policy.choose(s, ch)
             inj = None
             if pool and t.depth == 0 and t.pending.kind != "start":
-                if inject_plan is not None:
+                if hasattr(policy, "inject_here"):
+                    if policy.inject_here(s, t):
+                        inj = pool.pop(0)
+                elif inject_plan is not None:
                     if stepno in inject_plan:
                         inj = pool.pop(0)
                 elif inject_rng is not None and inject_rng.random() < 0.06:
@@ -503,6 +536,16 @@ def main():
     for cfgname, nr, nd, bound, lines in plan:
         traces = explore(chk, cfgname, nr, nd, bound, lines)
         validate(chk, cfgname, traces)
+    # one directed schedule far outside the bounds: a long backlog behind a held writer, then a re-entrant send on the writer
+    trace, bad, plan_used, white = run_impl("backlog", BacklogPolicy(), max_steps=60000)
+    chk.evaluated()
+    chk.distinct(("sched", "backlog"))
+    for key, msg in bad:
+        chk.violation("impl:backlog:" + key, "C12 [100 messages queued behind a writer held in its transport write, then a re-entrant "
+                      "send on the writer] %s" % msg, {"mode": "backlog"})
+    if not bad:
+        chk.validated()
+    chk.cov["backlog_run"] = {"reentrant_send_injected": bool(plan_used)}
     chk.assumptions += [
         "operations on Lock / list / stream are atomic steps (CPython GIL); preemption is explored between them"
         " (thorough tier: between source lines of _send/_async_request/Channel.send)",
